@@ -10,7 +10,7 @@ import (
 func init() {
 	register(&Rule{
 		ID:    "C06.dims",
-		Props: []string{"C06", "C08"},
+		Props: []string{"C06", "C08", "C20"},
 		Doc:   "UnmarshalGeoJSON selects the coordinates type XYZ only when some position has >= 3 elements AND no position has exactly 2 (mixed input decodes as 2D): the value DimXYZ reaches geojsonNodeToGeometry only on edges guarded by has3D and !has2D, where has2D is set exactly under `length == 2` and has3D under `length >= 3`; otherwise the position readers index element [2] of a 2-element position (index out of range panic)",
 		Floor: 1,
 		Run:   runC06Dims,
